@@ -8,7 +8,7 @@ Import ListNotations.
 Require Import UPV.Core.Expr UPV.Core.Eval UPV.Core.Interp UPV.Planning.Problem UPV.Planning.Sem.
 Require Import UPV.Planning.Temporal UPV.Planning.TTValidate UPV.Walkers.Subst UPV.Compilers.T2SCompile.
 Require Import UPV.Proofs.Eval_lemmas UPV.Proofs.Step_proofs UPV.Proofs.Temporal_base UPV.Proofs.Temporal_dense.
-Require Import UPV.Proofs.Temporal_joint UPV.Proofs.Temporal_proofs.
+Require Import UPV.Proofs.Temporal_joint UPV.Proofs.Temporal_run UPV.Proofs.Temporal_proofs.
 Local Open Scope Qc_scope.
 
 Definition seq_of_t (tpl : tplan) : list (N * list value) := map (fun st => (ps_act st, ps_args st)) tpl.
@@ -390,3 +390,294 @@ Section StepNoStart.
     destruct K as [K|K]; [exact (K1 K) | exact (K2 K)].
   Qed.
 End StepNoStart.
+
+(* ================================================================================================================ *)
+(* Composition: the whole converted plan, sub-fragment [no_start_fragment]                                           *)
+(* ================================================================================================================ *)
+Fixpoint nonempty_along (sc : bool) (TP : tproblem) (P' : problem) (s : state) (pi : list (N * list value)) : Prop :=
+  match pi with
+  | [] => True
+  | (aid, args) :: rest =>
+      match lookup_tact TP aid with
+      | Some (TDur d) => dur_nonempty sc (tp_base TP) s (zip_params (d_params d) args) d = true
+      | _ => True
+      end /\
+      match lookup_action P' aid with
+      | Some a' => match spec_step sc P' s a' args with Some s' => nonempty_along sc TP P' s' rest | None => True end
+      | None => True
+      end
+  end.
+
+Definition positive_durations (tpl : tplan) : Prop := forall st dt, In st tpl -> ps_dur st = Some dt -> zq 0 < dt.
+
+(* ---------------------------------------------------------------- arithmetic and timings *)
+Lemma lt_plus (s d : Qc) : zq 0 < d -> s < s + d.
+Proof. intros H. unfold Qclt, Qcplus in *. cbn [this Q2Qc] in *. rewrite ?Qred_correct. rewrite zq0_this in H. lra. Qed.
+
+Lemma plus_zq0 (s : Qc) : s + zq 0 = s.
+Proof. apply Qcplus_0_r. Qed.
+
+Lemma abs_time_start s d tm : is_start0 tm = true -> abs_time s d tm = s.
+Proof.
+  unfold is_start0, abs_time. destruct (tm_anchor tm); [|discriminate]. intros H. apply qc_is0_spec in H. rewrite H.
+  apply plus_zq0.
+Qed.
+
+Lemma abs_time_end s d tm : is_end0 tm = true -> abs_time s d tm = s + d.
+Proof.
+  unfold is_end0, abs_time. destruct (tm_anchor tm); [discriminate|]. intros H. apply qc_is0_spec in H. rewrite H.
+  apply plus_zq0.
+Qed.
+
+(* an instant of a condition interval of a durative action lies in [start, start + d]; the interval starts closed at
+   the start or ends at the end (the other shapes are empty when 0 < d) *)
+Lemma iv_facts s d iv u :
+  end_point (ti_lo iv) = true -> end_point (ti_hi iv) = true -> zq 0 < d ->
+  in_iv (abs_interval s d iv) u ->
+  s <= u /\ u <= s + d /\
+  (is_start0 (ti_lo iv) && negb (ti_lopen iv) = true \/ is_end0 (ti_hi iv) = true).
+Proof.
+  intros EL EH D [L U]. pose proof (lt_plus s d D) as SD.
+  unfold abs_interval in *. cbn [ai_lo ai_hi ai_lopen ai_ropen] in *.
+  unfold end_point in *. apply orb_true_iff in EL. apply orb_true_iff in EH.
+  set (e := s + d) in *.
+  destruct EL as [EL|EL]; [rewrite (abs_time_start s d _ EL) in L | rewrite (abs_time_end s d _ EL) in L; fold e in L];
+  (destruct EH as [EH|EH]; [rewrite (abs_time_start s d _ EH) in U | rewrite (abs_time_end s d _ EH) in U; fold e in U]);
+  rewrite ?EL, ?EH; destruct (ti_lopen iv), (ti_ropen iv); cbn [negb andb];
+  unfold Qclt, Qcle in *;
+  try (split; [lra | split; [lra | first [left; reflexivity | right; reflexivity]]]);
+  try (exfalso; lra).
+Qed.
+
+Lemma state_at_cons_le s t s1 tr u : u <= t -> state_at s ((t, s1) :: tr) u = s.
+Proof. intros H. cbn [state_at]. assert (E : qc_ltb t u = false) by (apply qc_ltb_false; exact H). rewrite E. reflexivity. Qed.
+
+Lemma state_at_cons_lt s t s1 tr u : t < u -> state_at s ((t, s1) :: tr) u = state_at s1 tr u.
+Proof. intros H. cbn [state_at]. assert (E : qc_ltb t u = true) by (apply qc_ltb_lt; exact H). rewrite E. reflexivity. Qed.
+
+Lemma events_at_app t a b : events_at t (a ++ b) = events_at t a ++ events_at t b.
+Proof. unfold events_at. apply filter_app. Qed.
+
+(* ---------------------------------------------------------------- lookups in the compiled problem *)
+Lemma lookupN_In {A} k (l : list (N * A)) v : lookupN k l = Some v -> In (k, v) l.
+Proof.
+  induction l as [|[k' v'] l IH]; cbn; [discriminate|]. destruct (k =? k')%N eqn:E.
+  - intros H. inversion H. apply N.eqb_eq in E. subst. left. reflexivity.
+  - intros H. right. exact (IH H).
+Qed.
+
+Lemma t2s_actions_lookup smp l : forall acts, t2s_actions smp l = Some acts ->
+  forall aid d a', lookupN aid l = Some d -> lookupN aid acts = Some a' -> t2s_action smp d = Some a'.
+Proof.
+  induction l as [|[i d0] l IH]; intros acts H aid d a' L1 L2; cbn in *; [discriminate|].
+  destruct (t2s_action smp d0) as [a0|] eqn:E0; [|discriminate].
+  destruct (t2s_actions smp l) as [r|] eqn:Er; [|discriminate].
+  inversion H; subst acts. cbn in L2. destruct (aid =? i)%N.
+  - inversion L1; inversion L2; subst. exact E0.
+  - exact (IH r eq_refl aid d a' L1 L2).
+Qed.
+
+Lemma t2s_action_params smp d a' : t2s_action smp d = Some a' -> a_params a' = d_params d.
+Proof.
+  unfold t2s_action. cbv zeta. destruct (negb (effs_supported d)); [discriminate|].
+  match goal with |- context [match ?x with Some _ => _ | None => _ end] => destruct x end; [|discriminate].
+  intros H. inversion H. reflexivity.
+Qed.
+
+Section Compose.
+  Variable sc : bool.
+  Variable smp : expr -> expr.
+  Hypothesis OK : forall e I, eval sc (smp e) I = eval sc e I.
+  Variable TP : tproblem.
+  Let P := tp_base TP.
+  Variable P' : problem.
+  Variable eps : Qc.
+  Hypothesis FR : no_start_fragment smp TP = true.
+  Hypothesis CP : t2s_problem smp TP = Some P'.
+  Hypothesis He : zq 0 < eps.
+
+  Lemma frag_parts :
+    t2s_fragment TP = true /\ p_actions P = [] /\
+    forallb (fun id => match t2s_action smp (snd id) with Some a' => plain_step smp (snd id) a' | None => false end)
+            (tp_dur TP) = true.
+  Proof.
+    unfold no_start_fragment in FR. rewrite !andb_true_iff in FR. destruct FR as [[A B] C].
+    split; [exact A|]. split; [|exact C]. fold P in B. destruct (p_actions P); [reflexivity | discriminate].
+  Qed.
+
+  Lemma compiled_shape : exists acts, t2s_actions smp (tp_dur TP) = Some acts /\ same_base P P' /\
+    forall aid, lookup_action P' aid = lookupN aid acts.
+  Proof.
+    unfold t2s_problem in CP. destruct (t2s_actions smp (tp_dur TP)) as [acts|]; [|discriminate].
+    exists acts. split; [reflexivity|]. inversion CP as [E]. split; [repeat split|].
+    intros aid. unfold lookup_action. cbn [p_actions]. destruct frag_parts as (_ & B & _). fold P. rewrite B. reflexivity.
+  Qed.
+
+  Lemma no_inst aid ai : lookup_tact TP aid = Some (TInst ai) -> False.
+  Proof.
+    unfold lookup_tact. destruct frag_parts as (_ & B & _). fold P. rewrite B. cbn.
+    destruct (lookupN aid (tp_dur TP)); discriminate.
+  Qed.
+
+  Lemma action_facts aid d a' :
+    lookup_tact TP aid = Some (TDur d) -> lookup_action P' aid = Some a' ->
+    plain_step smp d a' = true /\ a_params a' = d_params d /\ conds_supported d = true.
+  Proof.
+    intros LT LA. destruct compiled_shape as (acts & TA & _ & LK). rewrite LK in LA.
+    destruct frag_parts as (A & B & C).
+    unfold lookup_tact in LT. fold P in LT. rewrite B in LT. cbn in LT.
+    destruct (lookupN aid (tp_dur TP)) as [d0|] eqn:LD; [|discriminate]. inversion LT; subst d0.
+    pose proof (t2s_actions_lookup smp _ acts TA aid d a' LD LA) as T.
+    pose proof (lookupN_In _ _ _ LD) as Hin.
+    rewrite forallb_forall in C. specialize (C _ Hin). cbn [snd] in C. rewrite T in C.
+    split; [exact C|]. split; [exact (t2s_action_params smp d a' T)|].
+    unfold t2s_fragment in A. rewrite !andb_true_iff in A. destruct A as [[_ A] _].
+    rewrite forallb_forall in A. specialize (A _ Hin). cbn [snd] in A. apply andb_true_iff in A. exact (proj2 A).
+  Qed.
+
+  Lemma frag_empty : tp_teffs TP = [] /\ tp_tgoals TP = [] /\ p_invs P = [].
+  Proof.
+    destruct frag_parts as (A & _). unfold t2s_fragment in A. rewrite !andb_true_iff in A.
+    destruct A as [[[[A1 A2] A3] _] _]. fold P in A3.
+    destruct (tp_teffs TP); [|discriminate]. destruct (tp_tgoals TP); [|discriminate]. destruct (p_invs P); [|discriminate].
+    repeat split.
+  Qed.
+
+  Definition Hk (k : nat) (tpl : tplan) : list event :=
+    flat_map (fun ist => step_events TP (fst ist) (snd ist)) (indexed_from k tpl).
+
+  Lemma step_events_end k st d dt l :
+    lookup_tact TP (ps_act st) = Some (TDur d) -> ps_dur st = Some dt -> only_end_effs d = Some l ->
+    step_events TP k st = [ {| ev_time := ps_start st + dt; ev_src := Some k;
+                               ev_bind := zip_params (d_params d) (ps_args st); ev_effs := l |} ].
+  Proof.
+    intros LT PD OE. unfold step_events. rewrite LT, PD. unfold only_end_effs in OE.
+    destruct (d_effs d) as [|[tm l0] [|]]; try discriminate. destruct (is_end0 tm) eqn:E; [|discriminate].
+    inversion OE; subst l0. cbn [map fst snd]. rewrite (abs_time_end _ _ _ E). reflexivity.
+  Qed.
+
+  Lemma step_conds_in st d dt c :
+    lookup_tact TP (ps_act st) = Some (TDur d) -> ps_dur st = Some dt -> In c (step_conds TP st) ->
+    exists ic e, In ic (d_conds d) /\ In e (snd ic) /\
+      c = {| tc_iv := abs_interval (ps_start st) dt (fst ic); tc_bind := zip_params (d_params d) (ps_args st); tc_expr := e |}.
+  Proof.
+    intros LT PD. unfold step_conds. rewrite LT, PD. intros H. apply in_flat_map in H. destruct H as [ic [H1 H2]].
+    apply in_map_iff in H2. destruct H2 as [e [H2 H3]]. exists ic, e. repeat split; [exact H1 | exact H3 | symmetry; exact H2].
+  Qed.
+
+  (* the forward induction: temporal state s_t (= s_s extensionally), earlier events H0 strictly before [now] *)
+  Lemma compose_run : forall pi k now (s_s s_t : state) tpl H0 s_fin,
+    state_eq s_t s_s ->
+    back_plan sc TP P' eps now s_s pi = Some tpl ->
+    run P' (spec_step sc P') s_s pi = Some s_fin ->
+    nonempty_along sc TP P' s_s pi -> positive_durations tpl ->
+    (forall e, In e H0 -> ev_time e < now) ->
+    exists tr, run_times (ref_apply sc P) (H0 ++ Hk k tpl) s_t (map ev_time (Hk k tpl)) = Some tr /\
+      (forall st, In st tpl -> forall c, In c (step_conds TP st) -> cond_ok sc TP s_t tr c) /\
+      (forall st, In st tpl -> Temporal.step_dur_ok sc TP s_t tr st = true) /\
+      state_eq (final_state s_t tr) s_fin /\
+      asc_from now (map ev_time (Hk k tpl)) /\
+      (forall st, In st tpl -> forall c, In c (step_conds TP st) -> forall u, in_iv (tc_iv c) u -> now <= u).
+  Proof.
+    induction pi as [|[aid args] rest IH]; intros k now s_s s_t tpl H0 s_fin SE BP RUN NE POS HB.
+    - cbn in BP. inversion BP; subst tpl. cbn in RUN. inversion RUN; subst s_fin.
+      exists []. split; [reflexivity|]. split; [intros st []|]. split; [intros st []|]. split; [exact SE|].
+      split; [exact I | intros st []].
+    - destruct (back_plan_cons _ _ _ _ _ _ _ _ _ _ BP) as (a' & s_s' & r & od & La & Sp & -> & Hr & Hkind).
+      destruct od as [dt|]; [|destruct Hkind as (ai & Hai); exfalso; exact (no_inst _ _ Hai)].
+      destruct Hkind as (d & LT & SD).
+      cbn [run] in RUN. unfold lookup_action in La. unfold lookup_action in RUN. rewrite La, Sp in RUN.
+      cbn [nonempty_along] in NE. rewrite LT in NE. unfold lookup_action in NE. rewrite La, Sp in NE. destruct NE as [NE1 NE2].
+      set (st := {| ps_start := now; ps_act := aid; ps_args := args; ps_dur := Some dt |}) in *.
+      assert (Dpos : zq 0 < dt) by (apply (POS st dt); [left; reflexivity | reflexivity]).
+      assert (POSr : positive_durations r) by (intros x dx Hx; apply POS; right; exact Hx).
+      destruct (action_facts aid d a' LT La) as (PS & EP & CS).
+      set (t := now + dt).
+      destruct compiled_shape as (acts0 & _ & SB & _).
+      destruct (step_no_start_effects sc smp OK P P' SB d a' args s_s s_t s_s' (Some k) t PS EP SE Sp)
+        as (l & OE & CH & s_t1 & R1 & SE1).
+      assert (EV : step_events TP k st = [ {| ev_time := t; ev_src := Some k; ev_bind := zip_params (d_params d) args; ev_effs := l |} ])
+        by (apply (step_events_end k st d dt l LT eq_refl OE)).
+      set (ev := {| ev_time := t; ev_src := Some k; ev_bind := zip_params (d_params d) args; ev_effs := l |}) in *.
+      assert (HK : Hk k (st :: r) = ev :: Hk (S k) r).
+      { unfold Hk. cbn [indexed_from flat_map fst snd]. rewrite EV. reflexivity. }
+      assert (NT : now < t) by (apply lt_plus; exact Dpos).
+      assert (TN : t < t + eps) by (apply lt_plus; exact He).
+      assert (HB' : forall e, In e (H0 ++ [ev]) -> ev_time e < t + eps).
+      { intros e Hin. apply in_app_or in Hin. destruct Hin as [Hin|[<-|[]]].
+        - specialize (HB e Hin). unfold Qclt in *. lra.
+        - exact TN. }
+      destruct (IH (S k) (t + eps) s_s' s_t1 r (H0 ++ [ev]) s_fin SE1 Hr RUN NE2 POSr HB')
+        as (tr' & RT & C1 & C2 & C3 & C6 & C5).
+      rewrite <- app_assoc in RT. cbn [app] in RT.
+      assert (KE : forall e, In e (Hk (S k) r) -> t + eps < ev_time e).
+      { intros e Hin. apply (asc_from_gt _ _ C6). apply in_map. exact Hin. }
+      assert (EA : events_at t (H0 ++ ev :: Hk (S k) r) = [ev]).
+      { rewrite events_at_app. rewrite (events_at_none t H0).
+        - rewrite events_at_cons. cbn [ev_time ev].
+          assert (E : qc_eqb t t = true) by (apply qc_eqb_eq; reflexivity). rewrite E.
+          rewrite (events_at_none t (Hk (S k) r)); [reflexivity|].
+          intros x Hx E'. specialize (KE x Hx). rewrite E' in KE. unfold Qclt in *. lra.
+        - intros x Hx E'. specialize (HB x Hx). rewrite E' in HB. unfold Qclt in *. lra. }
+      exists ((t, s_t1) :: tr'). rewrite HK. cbn [map ev_time]. fold t.
+      split; [cbn [run_times]; change (ev_time ev) with t; rewrite EA, R1, RT; reflexivity|].
+      assert (CA := chained_after eps He r (t + eps) (back_plan_chained _ _ _ _ _ _ _ _ Hr)).
+      assert (STARTS : forall x, In x r -> t + eps <= ps_start x).
+      { assert (F : Forall (fun x => zq 0 <= dur_t x) r).
+        { apply Forall_forall. intros x Hx. unfold dur_t. destruct (ps_dur x) as [dx|] eqn:E; [|apply Qcle_refl].
+          apply Qclt_le_weak. exact (POSr x dx Hx E). }
+        specialize (CA F). rewrite Forall_forall in CA. exact CA. }
+      assert (HEADIV : forall c, In c (step_conds TP st) -> forall u, in_iv (tc_iv c) u ->
+                now <= u /\ u <= t /\ holds_in sc TP s_t (tc_bind c) (tc_expr c) = true).
+      { intros c Hc u Hu. destruct (step_conds_in st d dt c LT eq_refl Hc) as (ic & e & I1 & I2 & ->).
+        cbn [tc_iv tc_bind tc_expr] in *. unfold conds_supported in CS. rewrite forallb_forall in CS.
+        specialize (CS ic I1). apply andb_true_iff in CS. destruct CS as [CL CHi].
+        destruct (iv_facts now dt (fst ic) u CL CHi Dpos Hu) as (U1 & U2 & KD).
+        split; [exact U1|]. split; [exact U2|]. unfold holds_in. fold P. exact (CH ic e I1 I2 KD). }
+      split; [|split; [|split; [|split]]].
+      + intros x [<-|Hx] c Hc u Hu.
+        * destruct (HEADIV c Hc u Hu) as (_ & U2 & HH). rewrite (state_at_cons_le s_t t s_t1 tr' u U2). exact HH.
+        * pose proof (C5 x Hx c Hc u Hu) as U. rewrite (state_at_cons_lt s_t t s_t1 tr' u); [exact (C1 x Hx c Hc u Hu)|].
+          unfold Qclt, Qcle in *. lra.
+      + intros x [<-|Hx].
+        * unfold Temporal.step_dur_ok. cbn [ps_act ps_dur ps_start st]. rewrite LT.
+          rewrite (state_at_cons_le s_t t s_t1 tr' now); [|apply Qclt_le_weak; exact NT].
+          rewrite (dur_ok_ext sc TP s_t s_s _ d dt SE). exact (step_dur_ok sc TP s_s d args dt SD NE1).
+        * unfold Temporal.step_dur_ok. rewrite (state_at_cons_lt s_t t s_t1 tr' (ps_start x)).
+          -- exact (C2 x Hx).
+          -- specialize (STARTS x Hx). unfold Qclt, Qcle in *. lra.
+      + cbn [final_state]. exact C3.
+      + cbn [asc_from]. split; [exact NT|]. apply (asc_from_weaken (t + eps) t); [apply Qclt_le_weak; exact TN | exact C6].
+      + intros x [<-|Hx] c Hc u Hu.
+        * exact (proj1 (HEADIV c Hc u Hu)).
+        * pose proof (C5 x Hx c Hc u Hu) as U. unfold Qclt, Qcle in *. lra.
+  Qed.
+
+  (* whole-plan validity for the sub-fragment *)
+  Theorem plan_no_start_read s0 pi tpl :
+    bound_invs P = [] ->
+    valid_plan sc P' s0 pi = true ->
+    back_plan sc TP P' eps (zq 0) s0 pi = Some tpl ->
+    nonempty_along sc TP P' s0 pi -> positive_durations tpl ->
+    tt_valid sc TP s0 tpl.
+  Proof.
+    intros BI V BP NE POS.
+    unfold valid_plan in V. destruct (run P' (spec_step sc P') s0 pi) as [s_fin|] eqn:RUN; [|discriminate].
+    destruct (compose_run pi 0%nat (zq 0) s0 s0 tpl [] s_fin (fun f a => eq_refl) BP RUN NE POS
+                          (fun e F => match F with end))
+      as (tr & RT & C1 & C2 & C3 & C6 & _).
+    destruct frag_empty as (E1 & E2 & E3). destruct compiled_shape as (acts0 & _ & SB & _).
+    assert (AE : all_events TP tpl = Hk 0 tpl).
+    { unfold all_events, timed_events. rewrite E1. reflexivity. }
+    assert (TS : times_of (all_events TP tpl) = map ev_time (Hk 0 tpl)).
+    { rewrite AE. destruct (times_of_spec (Hk 0 tpl)) as [T1 T2]. apply asc_unique; [exact T1 | | exact T2].
+      destruct (map ev_time (Hk 0 tpl)) as [|x xs]; [exact I | exact (proj2 C6)]. }
+    split; [exact (back_plan_wf _ _ _ _ _ _ _ _ BP)|].
+    exists tr. rewrite TS, AE. split; [exact RT|]. split; [exact C2|]. split.
+    - intros c Hc. unfold all_conds, global_conds in Hc. rewrite E2 in Hc. fold P in Hc. rewrite E3, BI in Hc.
+      cbn in Hc. apply in_flat_map in Hc. destruct Hc as [st [H1 H2]]. exact (C1 st H1 c H2).
+    - rewrite <- V. unfold goals_hold. fold P. pose proof SB as (_ & _ & _ & SG). rewrite SG.
+      symmetry. apply all_hold_ext. apply (mk_interp_base P P' _ _ [] SB).
+      intros f a. symmetry. apply C3.
+  Qed.
+End Compose.
